@@ -24,6 +24,8 @@ import vlib
 def rules_for(orig, info):
     """rules of the edited program: (stage', out') -> rule of the original"""
     cren = dict([info["callable"]]) if "callable" in info else {}
+    if "callable2" in info:
+        cren.update(dict([info["callable2"]]))
     oren = {}
     if "output" in info:
         n, o, o2 = info["output"]
@@ -197,7 +199,7 @@ def run(tier, replay=None):
             r = edit(d, flags)
             cases.append({"id": "%s:%s" % (q["name"], label), "dir": d, "rc": r.returncode, "err": r.stderr[-400:],
                           "prog": q["name"], "info": info, "flags": flags, "src": src})
-            if "callable" in info:
+            if "callable" in info and not info.get("combined"):
                 # and back again
                 d2 = d + "_back"
                 os.makedirs(d2)
@@ -241,6 +243,8 @@ def run(tier, replay=None):
             kind = "does-not-compile"
             if "map call" in (a.get("error") or "") and "remove_input" in c["id"]:
                 kind = "does-not-compile-mapped-input-removed"
+            if "callable2" in c["info"]:
+                kind = "does-not-compile-two-renames-in-one-invocation"
             prm = (c["info"].get("input") or c["info"].get("output") or ("", "", ""))
             if "* =" in c["src"] and "ArgumentNotSuppliedError" in (a.get("error") or "") and prm[1] and \
                     ("'%s'" % prm[1] in a["error"] or "'%s'" % prm[2] in a["error"]):
